@@ -410,7 +410,7 @@ def outcome_coq(o):
         return "(OCols %s)" % cols_coq(o["l"])
     if t == "during":
         sel = "(DOne %s)" % cols_coq(o["one"]) if "one" in o else "(DRows %s)" % llit([cols_coq(r) for r in o["rows"]])
-        return "(ODuring (mk_dout %s %s %s))" % (sel, zlit(o["t0"]), UCOQ[o["u"]])
+        return "(ODuring (mk_dout %s %s %s %s))" % (sel, zlit(o["t0"]), zlit(o["dt"]), UCOQ[o["u"]])
     if t == "events":
         return "(OEvents %s %s %s)" % (zlist(o["p"]), UCOQ[o["u"]], cols_coq(o["d"]))
     if t == "epochs":
@@ -513,6 +513,31 @@ def spec_epochs(ea):
     return {"start": sp, "stop": ep, "sc": ssc, "off": op[0], "u": su}
 
 
+def expected_axis(b):
+    """the state a UniformTime(length=n, sampling_interval=whole ps, t0=...) must have, worked out from
+    the arguments alone (so that the oracle does not rest on the attributes of the object under test)"""
+    kw = b["kw"]
+    si, u = kw.get("sampling_interval"), kw.get("time_unit")
+    if "length" not in kw or u is None or "duration" in kw:
+        return None
+    f = FACT[u]
+    if isinstance(si, dict):
+        dt = si["t"]["p"][0]
+    elif isinstance(si, int):
+        dt = si * f
+    else:
+        return None
+    t0 = kw.get("t0", 0)
+    if isinstance(t0, dict):
+        t0 = t0["t"]["p"][0]
+    elif isinstance(t0, int):
+        t0 = t0 * f
+    else:
+        t0 = rne(Fraction(float(t0) * float(f)))
+    n = kw["length"]
+    return {"samples": [t0 + i * dt for i in range(n)], "t0": t0, "dt": dt, "dur": n * dt, "u": u}
+
+
 def is_sorted(p):
     return all(p[i] <= p[i + 1] for i in range(len(p) - 1))
 
@@ -591,6 +616,11 @@ def oracle(a, o):
         return None
     if k in ("uindex", "uat", "uslice", "uduring"):
         ax = a["axis"]
+        exp = expected_axis(a["build"])
+        if exp is not None and exp != ax and a.get("dv") != "rewrap":   # UniformTime(axis) is a C02 constructor path
+            return fail("C03/UniformTime/state", "samples / t0 / interval / duration of the axis (built%s) differ from its specification"
+                        % (", then derived by %s" % a["dv"] if a.get("dv") else ""), {k_: ax[k_] for k_ in ("t0", "dt", "dur", "u")},
+                        {k_: exp[k_] for k_ in ("t0", "dt", "dur", "u")})
         p, t0, dt, dur = ax["samples"], ax["t0"], ax["dt"], ax["dur"]
         n = len(p)
         wf = axis_wf(ax)
@@ -754,10 +784,14 @@ def gen_times(rng, u, kind=None, nbig=None):
     """a 1-d time array description: grid g (ps), positions; sorted / duplicates / unsorted"""
     f = FACT[u]
     g = rng.choice([f, f, f // 2 if f > 1 else 1, f // 4 if f > 3 else 1, 7, 1, 3 * f])
+    if g >= 2 ** 52:             # days / weeks: keep 40 grid steps far inside the 2^62 ps range
+        g = rng.choice([f // 24, f // 100, 2 ** 52 + 1])
     kind = kind or rng.choice(["strict", "strict", "dups", "dups", "unsorted"])
     n = rng.randint(1, 8)
     if nbig:
         n = nbig
+    while 3 * (n + 12) * g >= 2 ** 60:
+        g = g // 10 + 1
     base = rng.randint(-6, 6)
     ks = []
     cur = base
@@ -959,6 +993,8 @@ def gen_series(rng, nbig=None):
     if rng.random() < 0.05:
         dt = 2 ** rng.randint(53, 56) + rng.choice([0, 1, 3])
         t0 = rng.choice([0, -dt, 5])
+    while (n + 2) * dt >= 2 ** 60:
+        dt = dt // 10 + 1
     if abs(t0) + (n + 2) * dt >= 2 ** 62 - 2 ** 58:
         t0 = 0
     dv = rng.choice(SERIES_DV)
@@ -1032,6 +1068,9 @@ def gen_action0(rng, ts, nbig=None):
                 ax = axis_state(derive_axis(ts, mk_axis(ts, b), dv))
             except Exception:  # noqa  (sub-picosecond interval: C02's business)
                 continue
+            exp = expected_axis(b)
+            if exp is not None and abs(exp["t0"]) + abs(exp["dur"]) >= 2 ** 62 - 2 ** 58:
+                continue            # beyond the int64 picosecond range of the property
             if ax["dt"] > 0 and 1 <= len(ax["samples"]) <= 5000 and max(abs(ax["t0"]), abs(ax["t0"] + ax["dur"])) < 2 ** 62 - 2 ** 58:
                 break
         p, g = ax["samples"], ax["dt"]
@@ -1092,6 +1131,233 @@ def gen_action0(rng, ts, nbig=None):
     s, g = gen_times(rng, u)
     e = gen_bad_eargs(rng, u) if rng.random() < 0.4 else gen_eargs(rng, u, s["p"], g, array=rng.random() < 0.5)
     return {"act": "epochs", "e": e}
+
+
+# ------------------------------------------------------------------ long objects (oracle only: too long for K)
+BIG_N = [1025, 2049, 4097, 8191, 65537, 100003, 2 ** 17 + 1, 10 ** 6]
+
+
+def big_times(a):
+    """the sample times of a long object, from its description (numpy int64, exact)"""
+    k = np.arange(a["n"], dtype=np.int64)
+    if a.get("dup"):
+        k = k // 2
+    return np.int64(a["t0"]) + np.int64(a["dt"]) * k
+
+
+def gen_big(rng, sizes):
+    n = rng.choice(sizes)
+    fam = rng.choice(["u", "u", "s", "s", "t", "t", "e"])
+    u = gen_unit(rng)
+    f = FACT[u]
+    dt = rng.choice([1, 7, 1000, max(1, f // 4), f, 813270000001, 2 ** 33 + 1])
+    while n * dt >= 2 ** 60:
+        dt = max(1, dt // 1000)
+    t0 = rng.choice([0, -3 * dt, 5 * dt + 2, big_shift(rng), -f - 1])
+    if abs(t0) + (n + 2) * dt >= 2 ** 62 - 2 ** 58:
+        t0 = -3 * dt
+    a = {"act": "big", "fam": fam, "n": n, "t0": t0, "dt": dt, "u": u, "qu": rng.choice(UNITS),
+         "dup": fam in ("t", "e") and rng.random() < 0.6}
+    nk = (n + 1) // 2 if a["dup"] else n       # number of distinct times
+
+    def inst(inside=None):
+        # around positions near block boundaries / powers of two / the ends
+        i = rng.choice([0, 1, nk - 1, nk - 2, nk // 2, 511, 512, 1023, 1024, 1025, 2047, 2048, 4096, 65535, 65536, rng.randint(0, nk - 1)])
+        i = max(0, min(nk - 1, i))
+        t = t0 + i * dt + rng.choice([0, 0, 1, dt // 2, dt - 1])
+        r = rng.random()
+        if inside is None and r < 0.12:
+            t = t0 + nk * dt + rng.choice([0, 1])
+        elif inside is None and r < 0.2:
+            t = t0 - rng.choice([1, dt])
+        return t
+    if fam == "u":
+        a["op"] = rng.choice(["index", "index", "at", "slice", "during", "index_list", "mask"])
+    elif fam == "s":
+        a["op"] = rng.choice(["at", "int", "during", "during", "during_arr"])
+        a["lead"] = rng.choice([0, 0, 2])
+    elif fam == "t":
+        a["op"] = rng.choice(["closest", "before", "after", "slice", "during"])
+    else:
+        a["op"] = rng.choice(["epoch", "int"])
+    op = a["op"]
+    if op in ("index", "at", "before", "after", "closest"):
+        a["q"] = inst()
+        a["tol"] = rng.choice([None, 0, 1, dt, 3 * dt + 1]) if op == "closest" else None
+    elif op in ("index_list", "mask"):
+        a["q"] = [inst(True) for _ in range(3)]
+    elif op == "int":
+        a["q"] = rng.choice([0, -1, n - 1, -n, n, 1024, 1025, n // 2])
+    elif op == "during_arr":
+        d = rng.choice([1, 3, 1024, 1025]) * dt + rng.choice([0, 1])
+        st = [max(t0, min(inst(True), t0 + n * dt - 1 - d)) for _ in range(2)]
+        st = [t0 + ((x - t0) // dt) * dt for x in st]      # same phase: equal numbers of samples
+        a["q"] = [[x, x + d] for x in st]
+        a["off"] = rng.choice([0, -dt, 7])
+    else:
+        inside = True if (fam in ("u", "s") and rng.random() < 0.8) else None
+        st = inst(inside)
+        sp = inst(inside) if rng.random() < 0.6 else st + rng.choice([0, 1, dt, 1025 * dt, 4097 * dt + 1])
+        if inside and not (t0 <= sp < t0 + n * dt):
+            sp = t0 + n * dt - 1
+        a["q"] = [st, sp]
+        a["off"] = rng.choice([0, 0, -dt, 7])
+    return a
+
+
+def big_arg(ts, a, t, scalar=True):
+    f = FACT[a["u"]]
+    ts_ = [t] if scalar else list(t)
+    if all(x % f == 0 for x in ts_) and a["n"] % 2:
+        v = [x // f for x in ts_]
+        return v[0] if scalar else v
+    r = ts.TimeArray(np.int64(ts_[0]) if scalar else np.array(ts_, dtype=np.int64), time_unit="ps")
+    r.convert_unit(a["qu"])
+    return r
+
+
+def sha(arr):
+    import hashlib
+    arr = np.ascontiguousarray(np.asarray(arr).astype(np.int64))
+    return {"shape": list(arr.shape), "sha1": hashlib.sha1(arr.tobytes()).hexdigest(),
+            "head": [int(x) for x in arr.ravel()[:3]], "tail": [int(x) for x in arr.ravel()[-3:]]}
+
+
+def run_big(a):
+    """run the call on the implementation and work out, independently (numpy int64 on the description,
+    straight from the statement's definitions), what it has to return; -> (observed, required)"""
+    import nitime.timeseries as ts
+    p = big_times(a)
+    n, t0, dt, fam, op, q = a["n"], a["t0"], a["dt"], a["fam"], a["op"], a["q"]
+    pos = np.arange(n)
+    lo, hi = t0, t0 + n * dt
+
+    def ep(st, sp, off=0):
+        kw = {}
+        if off:
+            kw["offset"] = ts.TimeArray(np.int64(off), time_unit="ps")
+            return ts.Epochs(t0=big_arg(ts, a, st + off), stop=big_arg(ts, a, sp), time_unit=a["u"], **kw)
+        return ts.Epochs(start=big_arg(ts, a, st), stop=big_arg(ts, a, sp), time_unit=a["u"])
+    req = None
+    try:
+        if fam == "u":
+            obj = ts.UniformTime(length=n, sampling_interval=ts.TimeArray(np.int64(dt), time_unit="ps"),
+                                 t0=ts.TimeArray(np.int64(t0), time_unit="ps"), time_unit=a["u"])
+            if not np.array_equal(np.asarray(obj), p):
+                return {"t": "other", "what": "axis samples differ from t0 + k*interval"}, "t0 + k*interval"
+            if op in ("index", "at"):
+                req = "ValueError" if not lo <= q < hi else (int((q - t0) // dt) if op == "index" else int(p[(q - t0) // dt]))
+                r = obj.index_at(big_arg(ts, a, q)) if op == "index" else obj.at(big_arg(ts, a, q))
+                obs = int(r)
+            elif op in ("index_list", "mask"):
+                want = [(x - t0) // dt for x in q]
+                r = obj.index_at(big_arg(ts, a, q, scalar=False), boolean=(op == "mask"))
+                if op == "mask":
+                    m = np.zeros(n, dtype=bool)
+                    m[want] = True
+                    req, obs = sha(m), sha(np.asarray(r))
+                else:
+                    req, obs = [int(x) for x in want], [int(x) for x in r]
+            else:
+                sel = pos[(p >= q[0]) & (p < q[1])]
+                inside = lo <= q[0] < hi and lo <= q[1] < hi
+                if op == "slice":
+                    req = "ValueError" if not inside else ([int(sel[0]), int(sel[-1]) + 1] if len(sel) else "empty")
+                    sl = obj.slice_during(ep(*q))
+                    got = pos[sl]
+                    obs = [int(got[0]), int(got[-1]) + 1] if len(got) else "empty"
+                else:
+                    req = "ValueError" if not inside else sha(p[sel])
+                    obs = sha(np.asarray(obj.during(ep(*q))))
+        elif fam == "s":
+            lead = a.get("lead", 0)
+            data = np.arange((lead or 1) * n, dtype=np.int64).reshape(((lead,) if lead else ()) + (n,))
+            obj = ts.TimeSeries(data, sampling_interval=ts.TimeArray(np.int64(dt), time_unit="ps"),
+                                t0=ts.TimeArray(np.int64(t0), time_unit="ps"), time_unit=a["u"])
+            if op == "at":
+                req = "ValueError" if not lo <= q < hi else sha(data[..., (q - t0) // dt])
+                obs = sha(obj.at(big_arg(ts, a, q)))
+            elif op == "int":
+                req = "IndexError" if not -n <= q < n else sha(data[..., q % n])
+                obs = sha(obj[q])
+            elif op == "during":
+                sel = pos[(p >= q[0]) & (p < q[1])]
+                inside = lo <= q[0] < hi and lo <= q[1] < hi
+                req = "ValueError" if not inside else {"data": sha(data[..., sel]), "t0": a["off"], "dt": dt,
+                                                        "time": sha(a["off"] + dt * np.arange(len(sel), dtype=np.int64))}
+                r = obj.during(ep(q[0], q[1], a["off"]))
+                obs = {"data": sha(r.data), "t0": int(r.t0), "dt": int(r.sampling_interval), "time": sha(np.asarray(r.time))}
+            else:
+                sels = [pos[(p >= x[0]) & (p < x[1])] for x in q]
+                e = ts.Epochs(t0=ts.TimeArray(np.array([x[0] + a["off"] for x in q], dtype=np.int64), time_unit="ps"),
+                              offset=ts.TimeArray(np.int64(a["off"]), time_unit="ps"),
+                              duration=ts.TimeArray(np.int64(q[0][1] - q[0][0]), time_unit="ps"))
+                inside = all(lo <= y < hi for x in q for y in x)
+                if not inside:
+                    req = "ValueError"
+                elif len(set(len(x) for x in sels)) > 1:
+                    req = "ValueError"
+                else:
+                    req = {"data": sha(np.array([data[..., x] for x in sels])), "t0": a["off"], "dt": dt}
+                r = obj.during(e)
+                obs = {"data": sha(r.data), "t0": int(r.t0), "dt": int(r.sampling_interval)}
+        else:
+            tm = ts.TimeArray(p, time_unit="ps")
+            tm.convert_unit(a["u"])
+            if fam == "t":
+                if op == "closest":
+                    tol = 1 if a["tol"] is None else a["tol"]
+                    req = [int(x) for x in pos[np.abs(p - q) <= tol]]
+                    kw = {} if a["tol"] is None else {"tol": ts.TimeArray(np.int64(a["tol"]), time_unit="ps")}
+                    obs = [int(x) for x in tm.index_at(big_arg(ts, a, q), **kw)]
+                elif op in ("before", "after"):
+                    c = pos[p <= q] if op == "before" else pos[p >= q]
+                    if len(c):
+                        ext = p[c].max() if op == "before" else p[c].min()
+                        req = int(c[p[c] == ext][0])
+                    else:
+                        req = []
+                    r = tm.index_at(big_arg(ts, a, q), mode=op)
+                    obs = int(r) if np.ndim(r) == 0 else [int(x) for x in r]
+                else:
+                    sel = pos[(p >= q[0]) & (p < q[1])]
+                    if op == "slice":
+                        req = [int(sel[0]), int(sel[-1]) + 1] if len(sel) else "empty"
+                        got = pos[tm.slice_during(ep(*q))]
+                        obs = [int(got[0]), int(got[-1]) + 1] if len(got) else "empty"
+                    else:
+                        req, obs = sha(p[sel]), sha(np.asarray(tm.during(ep(*q))))
+            else:
+                d1 = np.arange(n, dtype=np.int64)
+                d2 = np.arange(2 * n, dtype=np.int64).reshape(n, 2)
+                ev = ts.Events(tm, a=d1, b=d2)
+                if op == "int":
+                    if not -n <= q < n:
+                        req = "IndexError"
+                    else:
+                        req = {"time": sha(p[[q % n]]), "a": sha(d1[[q % n]]), "b": sha(d2[[q % n]])}
+                    r = ev[q]
+                else:
+                    sel = pos[(p >= q[0]) & (p < q[1])]
+                    req = {"time": sha(p[sel]), "a": sha(d1[sel]), "b": sha(d2[sel])}
+                    r = ev[ep(*q)]
+                obs = {"time": sha(np.asarray(r.time)), "a": sha(r.data["a"]), "b": sha(r.data["b"])}
+    except Exception as ex:  # noqa
+        obs = type(ex).__name__
+        if req is None:
+            obs = {"t": "other", "what": "exception before the expected result was known: %s %s" % (type(ex).__name__, str(ex)[:100])}
+    return obs, req
+
+
+def big_case(a):
+    obs, req = run_big(a)
+    f = None
+    if obs != req:
+        f = Fail("C03/long/%s/%s" % (a["fam"], a["op"]), "on an object of %d samples the result differs from the statement's definition"
+                 % a["n"], obs, req)
+    c = Case("", {"action": a, "observed": obs}, "long/%s/%s/n=%d" % (a["fam"], a["op"], a["n"]), nontrivial=not isinstance(obs, str))
+    c.in_k = False
+    return c, f
 
 
 def klass(a, o):
@@ -1183,7 +1449,16 @@ def run(ctx):
                              {"p": [1], "u": "ps", "sc": True}, {"entry_point": "nitime.timeseries.clock_tick"}))
     n = ctx.scale(3000, 40000)
     actions = corpus_actions() + [gen_action(ctx.rng, ts) for _ in range(n)]
+    # a few objects of 1025 .. 4097 samples in K as well (just above powers of two, a prime)
+    actions += [gen_action(ctx.rng, ts, nbig=ctx.rng.choice([1009, 1025, 2049, 4097])) for _ in range(ctx.scale(10, 60))]
     cases = [make_case(a) for a in actions]
+    # long objects (up to 10^6 samples): implementation against the statement's definitions, oracle only
+    for _ in range(ctx.scale(40, 400)):
+        c, f = big_case(gen_big(ctx.rng, BIG_N))
+        ctx.count_case(c)
+        if f is not None:
+            f.replay = {"entry_point": "nitime.timeseries (long object)"}
+            ctx.report_fail(f, c)
     shard = ctx.scale(250, 1000)
     kbad = ctx.check_cases("K", HEADER, cases, "check", shard=shard, case_type="(action * outcome)")
     kbad = retry_crashed(ctx, cases, shard, kbad)
@@ -1225,6 +1500,10 @@ def replay(ctx, path):
     core.import_nitime()
     d = json.loads(open(path).read())
     a = (d.get("case") or d)["action"]
+    if a["act"] == "big":
+        obs, req = run_big(a)
+        print(json.dumps({"action": a, "observed": obs, "required": req, "fails": obs != req}, indent=1, default=str))
+        return 1 if obs != req else 0
     o = run_action(a)
     f = oracle(a, o)
     print(json.dumps({"action": a, "observed": o, "fails": None if f is None else f.what,
